@@ -49,8 +49,12 @@ LayerC(r, prev) ==    \* shape predicted by the transcription of the algorithm
     [] r.ev = "ARemove" -> TRemove(t, r.i)
     [] r.ev = "APop"    -> TPop(t)
     [] OTHER -> t
+InRange(r, n) == CASE r.ev = "AInsert" -> r.i >= 0 /\ r.i <= n
+                    [] r.ev \in {"ASet", "ARemove"} -> r.i >= 0 /\ r.i < n
+                    [] OTHER -> TRUE
 Drifted(r) ==
-  IF l = 1 \/ r.res.class # "ok" \/ Trace[l - 1].t # r.t \/ ~Plain(Forest(Trace[l - 1])) \/ ~Plain(Forest(r)) THEN 0
+  IF l = 1 \/ r.res.class # "ok" \/ Trace[l - 1].t # r.t \/ ~Plain(Forest(Trace[l - 1])) \/ ~Plain(Forest(r))
+     \/ ~InRange(r, Len(AFlattenElems(Forest(Trace[l - 1])))) THEN 0
   ELSE IF Shape(LayerC(r, Trace[l - 1])) = Shape(TreeOf(Forest(r))) THEN 0 ELSE 1
 
 Step(r, m) ==     \* m: [s |-> new sequence, r |-> expected result]
@@ -60,7 +64,6 @@ Step(r, m) ==     \* m: [s |-> new sequence, r |-> expected result]
 Next ==
   /\ l <= Len(Trace) /\ l' = l + 1
   /\ LET r == Trace[l] IN
-     /\ (Drifted(r) = 1 => PrintT(<<"DRIFT_AT", l, r.t, r.ev>>))   \* layer-C mismatch: reported, never a verdict
      /\ CASE r.ev = "Load" ->
                /\ seq' = AbsIds(Root(r).abs) /\ rid' = Root(r).rid /\ typ' = Root(r).ti
           [] r.ev \in {"AInsert", "AAppend"} ->
@@ -79,6 +82,7 @@ Next ==
                /\ typ' = (IF StrictA THEN "S" \o ToString(r.ti) ELSE Root(r).ti)
                /\ seq' = (IF StrictA THEN seq ELSE AbsIds(Root(r).abs)) /\ UNCHANGED rid
           [] OTHER -> FALSE
+     /\ (Drifted(r) = 1 => PrintT(<<"DRIFT_AT", l, r.t, r.ev>>))   \* layer-C mismatch: reported, never a verdict
 
 Spec == Init /\ [][Next]_tvars
 
